@@ -1,9 +1,9 @@
 package props
 
 import (
-	"go/types"
 	"fmt"
 	"go/token"
+	"go/types"
 	"strings"
 
 	"golang.org/x/tools/go/ssa"
@@ -360,6 +360,61 @@ func runC10(c *core.Ctx, o Options) {
 			}
 		}
 		c.Check(nTrack >= 1, "Y6", "", "the handler that tracks the incoming counter was found", 0, fmt.Sprint(nTrack), "no all-types incoming handler sets the incoming counter (anchor moved)")
+		// … and conversely it does track every message received in any other state (a confirming Logout, the answer to the
+		// session's own TestRequest): a path of the tracking handler that returns without even looking at the message is
+		// one that only the two waiting-for-Logon states can take
+		for _, r := range s.regs {
+			if !r.In || r.Key != "ALL" || r.Fn == nil || an.NameOf(r.Parent) != "setStorageCallbacks" {
+				continue
+			}
+			for _, t := range s.tr.Traces(r.Fn, m.AllStates) {
+				sets, found := false, false
+				for _, e := range t.Events {
+					if e.Kind == "store" && e.Name == "SetSeqNum" {
+						sets = true
+					}
+					if e.Kind == "call" && strings.Contains(e.Name, "ValueByTag") {
+						found = true // the message was looked at (a missing or non-numeric number, a SequenceReset are its own business)
+					}
+				}
+				if sets || found {
+					continue
+				}
+				read, has := s.entryRead(t)
+				if !has {
+					read = m.AllStates
+				}
+				c.Check(read&^wl == 0, "Y6", an.NameOf(r.Fn), "every message received outside the Logon wait advances the incoming counter", r.Fn.Pos(), "skipped only in {WaitingLogon, WaitingLogonAnswer}",
+					"the all-types handler leaves the incoming counter alone on a path that state "+m.SetString(read&^wl)+" can take: a message received then (the peer's confirming Logout, the answer to the session's TestRequest) is not counted, the next expected number is one too low, and the next Logon is answered with a ResendRequest for a message that was received")
+			}
+		}
+	}
+	// ---- Y4 premise: what was stored stays stored — a retransmission of any number b..e ≤ last sent needs every entry
+	if st := c.Field("storages/memory", "Storage", "messages"); c.Anchor("message map of the store", st != nil, "memory.Storage.messages", token.NoPos) {
+		nUpd := 0
+		for _, fn := range pkgFuncs(c.SSAPkg("storages/memory")) {
+			an.AllInstrs(fn, func(in ssa.Instruction) {
+				switch x := in.(type) {
+				case *ssa.Call:
+					if b, isB := x.Call.Value.(*ssa.Builtin); isB && b.Name() == "delete" {
+						if f, _ := an.LoadedField(x.Call.Args[0]); f == st {
+							c.Ob("Y4", an.NameOf(fn), "no stored message is removed", x.Pos()).Fail("%s deletes an entry of Storage.messages: a ResendRequest that reaches that number is then answered with nothing (Messages fails on the first missing entry)", an.NameOf(fn))
+						}
+					}
+				case *ssa.MapUpdate:
+					if f, _ := an.LoadedField(x.Map); f == st {
+						nUpd++
+						c.Check(an.NameOf(fn) == "Save" && len(fn.Params) >= 4 && x.Key == ssa.Value(fn.Params[3]) && an.Unwrap(x.Value) == ssa.Value(fn.Params[2]), "Y4", an.NameOf(fn), "the store keeps the message given to Save under the number given to Save", x.Pos(), "messages[msgSeqNum] = msg",
+							"Storage.messages["+an.Render(x.Key)+"] = "+an.Render(x.Value)+" in "+an.NameOf(fn))
+					}
+				case *ssa.Store:
+					if fa, ok := x.Addr.(*ssa.FieldAddr); ok && an.FieldOf(fa) == st && an.NameOf(fn) != "NewStorage" {
+						c.Ob("Y4", an.NameOf(fn), "the message map is not replaced", x.Pos()).Fail("%s replaces Storage.messages", an.NameOf(fn))
+					}
+				}
+			})
+		}
+		c.Check(nUpd >= 1, "Y4", "Storage", "the store's update site found", token.NoPos, fmt.Sprint(nUpd), "no update of Storage.messages found")
 	}
 	// ---- Y7 each stored object is sent once: what the store keeps under a number is never re-stamped by a later send
 	checkFreshMessages(c, s, "Y7")
@@ -373,7 +428,8 @@ func runC10(c *core.Ctx, o Options) {
 		c.Ob("Y9", "start", "all-types incoming handler restores the logged-on state", 0).Fail("no all-types incoming handler is registered when the timers start: in WaitingTestReqAnswer a ResendRequest would be rejected instead of served")
 	}
 	c.Explanation += " Y6 also requires that processIncSeq is handed the very message the Logon handler decoded from the peer's bytes (not a Logon of the session's own making, whose number is not the peer's)."
-	c.RuleMin = map[string]int{"Y1": 1, "Y2": 3, "Y3": 1, "Y4": 2, "Y5": 1, "Y6": 4, "Y7": 3, "Y8": 3, "Y9": 1}
+	c.Explanation += " Y4 also: nothing deletes from or replaces Storage.messages and the only update is messages[msgSeqNum] = msg in Save. Y6 also: a path of the tracking handler that returns without looking at the message is one only WaitingLogon/WaitingLogonAnswer can take."
+	c.RuleMin = map[string]int{"Y1": 1, "Y2": 3, "Y3": 1, "Y4": 4, "Y5": 1, "Y6": 4, "Y7": 3, "Y8": 3, "Y9": 1}
 	c.MinObl = 8
 }
 
